@@ -1,0 +1,39 @@
+//go:build verif
+
+package coordinator
+
+import (
+	"github.com/openGemini/openGemini/lib/util/lifted/vm/protoparser/influx"
+)
+
+// VerifC14Admit lets the C14 verification harness run the write path's admission step for one batch: the ingestion
+// context is prepared as writePointRows does (checkDBRP computes the oldest admissible timestamp from the policy
+// duration and the coordinator's clock), then routeAndMapOriginRows judges every row. It reports the threshold that
+// was used and, per input row, the shard the row was mapped to (0 = rejected / dropped). Thin wrapper, no behaviour.
+func VerifC14Admit(mc PWMetaClient, database, retentionPolicy string, rows []influx.Row) (minTime int64, shardOf []uint64, partialErr error, dropped int, err error) {
+	pw := NewPointsWriter(0)
+	pw.MetaClient = mc
+	ctx := getInjestionCtx()
+	defer putInjestionCtx(ctx)
+	ctx.writeHelper = newWriteHelper(pw)
+	if err = ctx.checkDBRP(database, retentionPolicy, pw); err != nil {
+		return 0, nil, nil, 0, err
+	}
+	minTime = ctx.minTime
+	if retentionPolicy == "" {
+		retentionPolicy = ctx.db.DefaultRetentionPolicy
+	}
+	partialErr, dropped, err = pw.routeAndMapOriginRows(database, retentionPolicy, rows, ctx)
+	shardOf = make([]uint64, len(rows))
+	srm := ctx.getShardRowMap()
+	for i := range srm {
+		for _, rp := range srm[i].rows {
+			for j := range rows {
+				if rp == &rows[j] {
+					shardOf[j] = srm[i].shardInfo.ID
+				}
+			}
+		}
+	}
+	return minTime, shardOf, partialErr, dropped, err
+}
